@@ -206,3 +206,140 @@ Proof.
     { destruct g; [reflexivity | use G_check; destruct bw; discriminate U | discriminate Hg | use G_done; discriminate U]. }
     subst g. reflexivity.
 Qed.
+
+Theorem no_stuck : forall c s, cfg_ok c -> inv c s -> pending s = true ->
+  exists l s', sched true c s = Some l /\ work l = true /\ step true c s l = Some s'.
+Proof.
+  intros c s Hc Hi Hp. destruct (sched true c s) as [l|] eqn:E.
+  - destruct (sched_sound _ _ _ _ E) as [W [s' Hs]]. eauto.
+  - rewrite (quiescent c s Hc Hi E) in Hp. discriminate.
+Qed.
+
+(* ---- the measure decreases along every work transition ---- *)
+Ltac destr_step Hs :=
+  repeat (match type of Hs with
+    | context [match ?x with _ => _ end] => destruct x eqn:?; cbn in Hs; try discriminate Hs
+    end).
+
+Lemma mu_step : forall c s l s', cfg_ok c -> inv c s -> work l = true ->
+  step true c s l = Some s' -> mu c s' < mu c s.
+Proof.
+  intros c s l s' Hc Hi Hw Hs.
+  pose proof (inv_step _ _ _ _ Hc Hi Hs) as Hi'. destruct Hi' as [Hcr' _ _ _ _ _ _ _ _ _ _ _ _ _ _ _ _ _ _ _ _ _ _ _ _ _ _ _ _ _ _ _ _ _ _].
+  pose proof (i_collect _ _ Hi) as Hcol.
+  unfold step in Hs. rewrite (i_crash _ _ Hi) in Hs. clear Hi.
+  destruct s. unfold crash, l0_pickable, all_exited, inflight_ts, reqs in *. cbn in Hcol.
+  destruct l; try discriminate Hw; clear Hw; cbn in Hs; destr_step Hs;
+    try (injection Hs as <-); cbn in Hcr'; try discriminate Hcr';
+    unfold mu; cbn; b2p;
+    try (match goal with H : forall k, WCollect ?x = WCollect k -> _ |- _ => specialize (H x eq_refl) end);
+    try lia.
+Qed.
+
+(* ---- work-only paths: finite, and they end in a state with no pending call ---- *)
+Inductive wpath (c : cfg) : st -> nat -> st -> Prop :=
+  | wp_nil : forall s, wpath c s 0 s
+  | wp_cons : forall s l s1 n s2, work l = true -> step true c s l = Some s1 ->
+      wpath c s1 n s2 -> wpath c s (S n) s2.
+
+Lemma wpath_inv : forall c s n s', cfg_ok c -> inv c s -> wpath c s n s' -> inv c s'.
+Proof.
+  intros c s n s' Hc Hi Hp. induction Hp; auto. apply IHHp. eapply inv_step; eassumption.
+Qed.
+
+(* every work-only path from s has at most mu c s steps *)
+Theorem progress_bound : forall c s n s', cfg_ok c -> inv c s -> wpath c s n s' ->
+  n + mu c s' <= mu c s.
+Proof.
+  intros c s n s' Hc Hi Hp. induction Hp.
+  - lia.
+  - pose proof (mu_step _ _ _ _ Hc Hi H H0). assert (inv c s1) by (eapply inv_step; eassumption).
+    specialize (IHHp H2). lia.
+Qed.
+
+Theorem progress : forall c s, cfg_ok c -> inv c s ->
+  exists n s', n <= mu c s /\ wpath c s n s' /\ pending s' = false /\ inv c s'.
+Proof.
+  intros c s Hc. remember (mu c s) as m eqn:Em. revert s Em.
+  induction m as [m IH] using lt_wf_ind. intros s Em Hi.
+  destruct (pending s) eqn:Hp.
+  - destruct (no_stuck c s Hc Hi Hp) as (l & s1 & _ & Hw & Hs).
+    pose proof (mu_step _ _ _ _ Hc Hi Hw Hs) as Hlt.
+    assert (Hi1 : inv c s1) by (eapply inv_step; eassumption).
+    destruct (IH (mu c s1) ltac:(lia) s1 eq_refl Hi1) as (n & s' & Hn & Hpath & Hq & Hi').
+    exists (S n), s'. split; [lia|]. split; [econstructor; eassumption|]. auto.
+  - exists 0, s. split; [lia|]. split; [constructor|]. auto.
+Qed.
+
+(* the executable scheduler reaches quiescence within mu steps *)
+Lemma run_S : forall strict c n s, run strict c (S n) s =
+  match sched strict c s with
+  | Some l => match step strict c s l with Some s' => run strict c n s' | None => s end
+  | None => s
+  end.
+Proof. reflexivity. Qed.
+
+Lemma run_quiesces_aux : forall c n s, cfg_ok c -> inv c s -> mu c s <= n ->
+  pending (run true c n s) = false /\ inv c (run true c n s).
+Proof.
+  intros c n. induction n as [|n IH]; intros s Hc Hi Hm.
+  - change (run true c 0 s) with s. split; [|assumption]. destruct (pending s) eqn:Hp; [|reflexivity].
+    destruct (no_stuck c s Hc Hi Hp) as (l & s1 & _ & Hw & Hs).
+    pose proof (mu_step _ _ _ _ Hc Hi Hw Hs). lia.
+  - rewrite run_S. destruct (sched true c s) as [l|] eqn:E.
+    + destruct (sched_sound _ _ _ _ E) as [Hw [s1 Hs]]. rewrite Hs.
+      apply IH; auto. { eapply inv_step; eassumption. }
+      pose proof (mu_step _ _ _ _ Hc Hi Hw Hs). lia.
+    + split; [apply (quiescent c s); assumption | assumption].
+Qed.
+
+Theorem run_quiesces : forall c s, cfg_ok c -> inv c s -> pending (run true c (mu c s) s) = false.
+Proof. intros. apply run_quiesces_aux; auto. Qed.
+
+(* ---- Close ---- *)
+Lemma clo_mono : forall strict c s l s', step strict c s l = Some s' -> clo s <> CNot -> clo s' <> CNot.
+Proof.
+  intros strict c s l s' Hs Hn. unfold step in Hs. destruct (crashed s); [discriminate|].
+  destruct s. unfold crash in *. cbn in *.
+  destruct l; cbn in Hs; destr_step Hs; try (injection Hs as <-); cbn; try assumption; try congruence.
+Qed.
+
+Lemma wpath_clo : forall c s n s', wpath c s n s' -> clo s <> CNot -> clo s' <> CNot.
+Proof. intros c s n s' Hp. induction Hp; auto. intros. apply IHHp. eapply clo_mono; eassumption. Qed.
+
+Lemma quiet_clo : forall s, pending s = false -> clo s = CNot \/ clo s = CDone.
+Proof.
+  intros s Hp. unfold pending in Hp. repeat (apply orb_false_iff in Hp; destruct Hp as [Hp ?]).
+  destruct (clo s); auto; discriminate.
+Qed.
+
+(* Close, once started, returns on some work-only path of at most mu steps, whatever else is in
+   flight; and EVERY work-only path that cannot be extended ends with Close returned *)
+Theorem close_completes : forall c s, cfg_ok c -> inv c s -> clo s <> CNot ->
+  (exists n s', n <= mu c s /\ wpath c s n s' /\ clo s' = CDone /\ pending s' = false) /\
+  (forall n s', wpath c s n s' -> sched true c s' = None -> clo s' = CDone /\ pending s' = false).
+Proof.
+  intros c s Hc Hi Hn. split.
+  - destruct (progress c s Hc Hi) as (n & s' & Hb & Hp & Hq & _).
+    exists n, s'. repeat split; auto.
+    destruct (quiet_clo _ Hq) as [E|E]; [|assumption]. exfalso. eapply wpath_clo; eassumption.
+  - intros n s' Hp Hsch. assert (Hi' : inv c s') by (eapply wpath_inv; eassumption).
+    pose proof (quiescent c s' Hc Hi' Hsch) as Hq. split; [|assumption].
+    destruct (quiet_clo _ Hq) as [E|E]; [|assumption]. exfalso. eapply wpath_clo; eassumption.
+Qed.
+
+(* the strict relation only removes schedules: each of its steps is a step of the code as written *)
+Lemma strict_sub : forall c s l s', step true c s l = Some s' -> step false c s l = Some s'.
+Proof.
+  intros c s l s' Hs. unfold step in *. destruct (crashed s); [discriminate|].
+  destruct l; cbn in *; try assumption.
+  - destruct (negb (markalive s)); [discriminate | assumption].
+  - destruct (clo s); try assumption. destruct (drp s); try assumption.
+    destruct (is_passed (hold s) || is_gpassed (g s)); [discriminate | assumption].
+  - destruct (clo s); try assumption. destruct (negb (rdwait s =? 0)); [discriminate | assumption].
+Qed.
+
+Lemma reach_strict_sub : forall c s, reach true c s -> reach false c s.
+Proof.
+  intros c s H. induction H; [constructor|]. apply reach_step with s l; [exact IHreach | apply strict_sub; assumption].
+Qed.
